@@ -1,6 +1,6 @@
 (** One entry point for the correspondence: checker id -> case -> verdict. *)
 From Coq Require Import ZArith List Bool.
-From Comet Require Import Base.Parse Check.C19 Check.C18 Check.VecHist.
+From Comet Require Import Base.Parse Check.C19 Check.C18 Check.VecHist Check.Codec.
 Import ListNotations.
 Open Scope Z_scope.
 
@@ -19,6 +19,9 @@ Definition dispatch (id : Z) (s : list Z) : list Z :=
   else if id =? 1805 then run_P chk_cmp32 s
   else if id =? 1806 then run_P chk_triangle s
   else if id =? 200 then run_P chk_vechist s
+  else if id =? 701 then run_P chk_read s
+  else if id =? 703 then run_P chk_reload_equiv s
+  else if id =? 704 then run_P chk_prefixes s
   else [8].
 
 (** used by cases.v: the list of case numbers whose verdict is not OK *)
